@@ -327,9 +327,20 @@ def gen_elf(rng, big=False):
     machine, defshift, ptr = rng.choice(ELF_MACHINES[(w64, be)])
     shift = defshift
     vmci = b"OSRELEASE=5.14.21-test\n"
+    if defshift and rng.random() < 0.2:
+        # a PAGESIZE line that strtoul() does not consume completely is ignored
+        vmci += rng.choice([b"PAGESIZE=8192k\n", b"PAGESIZE=0x2000\n", b"PAGESIZE=16384 \n", b"PAGESIZE=4096.0\n"])
     if not defshift or rng.random() < 0.25:
         shift = rng.choice([12, 12, 12, 13, 13, 14, 16]) if (not defshift or rng.random() < 0.5) else defshift
-        vmci += b"PAGESIZE=%d\n" % (1 << shift)
+        if rng.random() < 0.2:          # an earlier announcement is overridden by a later one
+            vmci += b"PAGESIZE=%d\n" % (1 << rng.choice([12, 13, 16]))
+        # strtoul() accepts leading blanks, a sign and leading zeros
+        vmci += b"PAGESIZE=" + rng.choice([b"", b"", b"", b" ", b"+", b"\t+", b"000"]) + b"%d\n" % (1 << shift)
+        if rng.random() < 0.3:
+            vmci += rng.choice([b"PAGESIZEX=4096\n", b"XPAGESIZE=8192\n", b"CRASHTIME=12345\n",
+                                b"PAGESIZE=65536x\n"])
+        if rng.random() < 0.2:
+            vmci = vmci[:-1]            # no newline at the end of the text
     pgsz = 1 << shift
     addr_lim = (1 << 32) - 2 * pgsz if not w64 else (1 << 46)
     nload = rng.randint(1, 6)
@@ -393,9 +404,17 @@ def gen_elf(rng, big=False):
             vcur = (vcur + pgsz - 1) // pgsz * pgsz + (s["phys"] % pgsz)
             s["virt"] = vcur
             vcur += s["memsz"] + rng.choice([0, 0, pgsz, rng.randrange(1, 2 * pgsz)])
-    note = {"type": 4, "flags": 0, "phys": 0, "virt": 0, "memsz": 0, "align": 0, "gap": 0,
-            "data": elf_note(be, b"VMCOREINFO", 0, vmci)}
+    notes = elf_note(be, b"VMCOREINFO", 0, vmci)
+    k = rng.random()
+    if k < 0.25:                        # other notes around it, with lengths that need padding
+        notes = elf_note(be, b"FOO", 7, bytes(rng.randrange(0, 11))) + notes
+    elif k < 0.4:
+        notes = notes + elf_note(be, b"QEMUX", 1, b"PAGESIZE=2048\n")
+    note = {"type": 4, "flags": 0, "phys": 0, "virt": 0, "memsz": 0, "align": 0, "gap": 0, "data": notes}
     segs = [note] + loads
+    if rng.random() < 0.15:             # a second NOTE segment
+        segs.append({"type": 4, "flags": 0, "phys": 0, "virt": 0, "memsz": 0, "align": 0, "gap": 0,
+                     "data": elf_note(be, b"BAR", 3, b"xyz")})
     if rng.random() < 0.3:
         segs.append({"type": rng.choice([0, 6, 0x6474e551]), "flags": 0, "phys": 0x5000, "virt": 0x5000,
                      "memsz": pgsz, "align": 0, "gap": 0, "data": b"ignored"})
@@ -537,7 +556,7 @@ def lkcd_pfns(rng, pgsz):
     beyond MAX_PFN_GAP (15), runs crossing a level-3 table (4096 frames), far-away frames."""
     s = set()
     want = rng.randint(0, 14 if pgsz <= 8192 else 6)
-    bases = [0, 1, 10, 4090, 4095, 4096, 8190, 1 << 22, (1 << 22) - 3, 0x12345]
+    bases = [0, 1, 10, 4090, 4095, 4096, 8190, 1 << 22, (1 << 22) - 3, 0x12345, (1 << 32) - 60]
     guard = 0
     while len(s) < want and guard < 100:
         guard += 1
@@ -545,7 +564,7 @@ def lkcd_pfns(rng, pgsz):
         step = rng.choice([1, 1, 2, 7, 15, 16, 17])
         for i in range(rng.choice([1, 2, 3, 5])):
             if len(s) < want:
-                s.add(base + i * step)
+                s.add(min(base + i * step, (1 << 32) - 1))     # the index holds 32-bit numbers
     return sorted(s)
 
 
@@ -612,6 +631,9 @@ def lkcd_requests(rng, info):
         k = rng.choice([1, 2, 9, pgsz // 2])
         reqs.append("RM:%x:%x" % ((p + 1) * pgsz - k, 2 * k))
         reqs.append("RM:%x:%x" % (p * pgsz + rng.randrange(pgsz), rng.randint(0, 64)))
+    # page frames 2^32 apart share the low 32 bits of their number (fix 90)
+    for p in pfns[:2]:
+        reqs.insert(rng.randrange(len(reqs) + 1), "RM:%x:%x" % (((1 << 32) + p) * pgsz, pgsz))
     # read everything again once the index is complete
     again = list(pfns)
     rng.shuffle(again)
